@@ -194,12 +194,6 @@ func (x *Exec) oblige(st *State, kind, label string, n ast.Node, goal string) {
 		o.Props = x.con.Props
 	}
 	var b strings.Builder
-	b.WriteString("(set-option :smt.auto-config false)\n") // ignored by cvc5? replaced per solver below
-	b.Reset()
-	for _, d := range x.ctx.decls {
-		b.WriteString(d)
-		b.WriteByte('\n')
-	}
 	for _, a := range st.pc {
 		b.WriteString("(assert ")
 		b.WriteString(a)
@@ -208,7 +202,7 @@ func (x *Exec) oblige(st *State, kind, label string, n ast.Node, goal string) {
 	b.WriteString("(assert (not ")
 	b.WriteString(goal)
 	b.WriteString("))\n(check-sat)\n")
-	o.query = b.String()
+	o.query = x.ctx.render(b.String()) + b.String()
 	o.Size = len(o.query)
 	o.getvals = append([]string(nil), x.inputs...)
 	x.obls = append(x.obls, o)
@@ -225,15 +219,11 @@ func (x *Exec) cover(st *State, label string, n ast.Node) {
 		o.Props = x.con.Props
 	}
 	var b strings.Builder
-	for _, d := range x.ctx.decls {
-		b.WriteString(d)
-		b.WriteByte('\n')
-	}
 	for _, a := range st.pc {
 		b.WriteString("(assert " + a + ")\n")
 	}
 	b.WriteString("(check-sat)\n")
-	o.query = b.String()
+	o.query = x.ctx.render(b.String()) + b.String()
 	o.Size = len(o.query)
 	x.obls = append(x.obls, o)
 }
@@ -255,7 +245,7 @@ func (x *Exec) define(st *State, hint string, t Term) Term {
 		return Term{S: c, Sort: t.Sort, T: t.T}
 	}
 	c := x.ctx.fresh(hint, t.Sort)
-	x.ctx.decl("(assert " + app("=", c, t.S) + ")")
+	x.ctx.declKeyed(c, "(assert "+app("=", c, t.S)+")")
 	x.ctx.defs[t.S] = c
 	return Term{S: c, Sort: t.Sort, T: t.T}
 }
@@ -492,14 +482,14 @@ func (x *Exec) transferViews(from, to Term, es string, cond func(slice string) s
 			continue
 		}
 		nv := x.ctx.fresh("view", "(Array Int "+es+")")
-		x.ctx.decl("(assert " + imp(c, app("=", nv, old)) + ")")
+		x.ctx.declKeyed(nv, "(assert "+imp(c, app("=", nv, old))+")")
 		x.regView(to.S, sl, nv)
 		x.bridge(nv, to, Term{S: sl, Sort: "Slice"})
 	}
 }
 
 func (x *Exec) bridge(v string, m Term, s Term) {
-	x.ctx.decl(fmt.Sprintf("(assert (forall ((k?v Int)) (! (= (select %s k?v) (select (select %s (s-arr %s)) (+ (s-off %s) k?v))) :pattern ((select %s k?v)))))", v, m.S, s.S, s.S, v))
+	x.ctx.declKeyed(v, fmt.Sprintf("(assert (forall ((k?v Int)) (! (= (select %s k?v) (select (select %s (s-arr %s)) (+ (s-off %s) k?v))) :pattern ((select %s k?v)))))", v, m.S, s.S, s.S, v))
 }
 
 // setView records that under memory m the view of s is the term v (a derived fact: v is built from older views).
